@@ -2,7 +2,7 @@
 from __future__ import annotations
 import json, random
 from ..common import Result, Violation, run_driver, canon_hash
-from ..langgen import LangGen, gen_model, lang_payload, inst_payload
+from ..langgen import LangGen, chain_language, gen_model, lang_payload, inst_payload
 from ..genrun import impl_generate, Ref
 
 ASSUMPTIONS = [
@@ -94,7 +94,10 @@ def run(seed, tier, lean) -> Result:
     cases = []
     for i in range(n):
         r = random.Random(rnd.getrandbits(48))
-        spec = LangGen(r).gen()
+        # every fourth language is a single inheritance chain with every mix of absent / -> / +> redefinitions
+        # (the shape in which a resolver that aliases the specification leaks expressions between levels)
+        spec = chain_language(r) if i % 4 == 3 else LangGen(r).gen()
+        res.bump('chain_language' if i % 4 == 3 else 'random_language')
         for _ in range(2 if tier == 'quick' else 3):
             cases.append((spec, gen_model(r, spec)))
     model = None
